@@ -22,6 +22,8 @@ def family(name):
         return tuple(_d3(parts[1], parts[2]))
     if parts[0] == 'mix3':
         return tuple(_mix3(parts[1], parts[2]))
+    if parts[0] == 'empty':
+        return tuple(_empty())
     if parts[0] == 'atmostneg':
         return tuple(_atmostneg(parts[1]))
     if parts[0] in ('conn3', 'closure3'):
@@ -200,3 +202,17 @@ def _atmostneg(policy):
             al = spaces.C('AtLeast', None, args, k)
             out.append(spaces.C('Any', None, [al, spaces.leaf('b')]))
     return [spaces.name_ids(f, policy) for f in out]
+
+
+def _empty():
+    """Compound nodes WITHOUT children (accepted by errors()): value in {-1,0,1} x sign, alone and next to other children."""
+    out = []
+    for s in (1, -1):
+        for v in (-1, 0, 1):
+            E = N("E", s, v, [])
+            out.append(N("A", 1, 1, [E]))
+            for s2 in (1, -1):
+                for v2 in (-1, 0, 1, 2):
+                    out.append(N("A", s2, v2, [E, L("a")]))
+                    out.append(N("A", s2, v2, [E, N("B", 1, 1, [L("a"), L("b")])]))
+    return out
